@@ -1,5 +1,5 @@
-import Vflow.Proofs.TruncV9
-import Vflow.Proofs.TruncIpfix
+import Vflow.Proofs.SkipV9
+import Vflow.Proofs.SkipIpfix
 /-!
 # C09 — an undecodable set never corrupts its neighbours; truncation never fabricates
 
@@ -31,6 +31,16 @@ def v9Msg : Bytes := v9Hdr ++ v9Tpl ++ exData1 ++ exData2
 def ipfixHdr : Bytes := [0, 10, 0, 56, 0, 0, 0, 1, 0, 0, 0, 2, 0, 0, 0, 3]
 def ipfixTpl : Bytes := [0, 2, 0, 16, 1, 0, 0, 2, 0, 8, 0, 4, 0, 12, 0, 4]
 def ipfixMsg : Bytes := ipfixHdr ++ ipfixTpl ++ exData1 ++ exData2
+
+/-- template 256 as both decoders store it -/
+def exTpl : Template := ⟨256, 2, 0, [], [⟨8, 4, 0⟩, ⟨12, 4, 0⟩]⟩
+/-- the cache after the template set of the example messages -/
+def exCache : Cache := Cache.insert [] exAddr 256 exTpl
+/-- a data set for template 999, which nobody announced -/
+def exUnknown : Bytes := setBytes 999 [1, 2, 3, 4, 5]
+
+theorem ok_ne_fuel {α : Type} {x : Except Err α} {m : α} (h : x = .ok m) : x ≠ .error .fuel := by
+  rw [h]; exact fun h' => nomatch h'
 
 /-! ## (b) Truncation ⇒ prefix -/
 
@@ -133,5 +143,202 @@ set_option maxRecDepth 100000 in
 example : Ipfix.recordsOf (Ipfix.decode [] exAddr (ipfixMsg.take 46)).1 <+:
     Ipfix.recordsOf (Ipfix.decode [] exAddr ipfixMsg).1 :=
   Ipfix.truncation_prefix [] exAddr ipfixMsg 46 (m := ([10, 56, 1, 2, 3], [exRec1, exRec2], [])) rfl
+
+/-! ## (a) Skip-equivalence
+
+`setBytes sid body` = `be16 sid ++ be16 (4 + |body|) ++ body` is a whole set.  It is `Undecodable`
+for a cache `c` when `sid > 255` and `c` holds no template `sid` for the exporter, or when `sid` is
+not a template / data set id (IPFIX: `4 ≤ sid ≤ 255`; NetFlow v9: `2 ≤ sid ≤ 255`, ids 2 and 3
+taking the `zeroRec` path).  The cache meant is always the cache *at the point where the set is
+met* (earlier sets of the same message may have added templates). -/
+
+/-- **C09(a), NetFlow v9, one flowset.**  On an undecodable flowset followed by any `rest`,
+`decodeSet` changes the decoder state only by moving the reader over the flowset: cache and records
+are untouched; the error slot holds the non-fatal `V9.skipErr` (`unknownTpl` for `sid > 255`, nothing
+for `4 ≤ sid ≤ 255`, `zeroRec` for `sid = 2, 3` with a body of more than 4 octets) — never a fatal
+error.  Side conditions: the flowset is encodable (`sid`, `4 + |body|` fit in 16 bits) and the loop
+fuel is positive (the outer loop passes `remaining + 1`).  Nothing is assumed about `rest`. -/
+theorem V9.decodeSet_skips (addr : Bytes) (fuel : Nat) (st : V9.St) (sid : Nat) (body rest : Bytes)
+    (hsid : sid < 65536) (hlen : 4 + body.length < 65536) (hfuel : 0 < fuel)
+    (hrem : st.r.rem = setBytes sid body ++ rest) (hu : V9.Undecodable st.cache addr sid) :
+    V9.decodeSet addr fuel st =
+      ({ st with r := ⟨rest, st.r.cnt + (setBytes sid body).length⟩ }, V9.skipErr sid body) :=
+  Vflow.V9.decodeSet_skips addr fuel st sid body rest hsid hlen hfuel hrem hu
+
+theorem V9.skipErr_nonfatal (sid : Nat) (body : Bytes) (e : Err) (h : V9.skipErr sid body = some e) :
+    e.nonfatal = true := Vflow.V9.skipErr_nonfatal sid body e h
+
+/-- **C09(a), NetFlow v9, outer loop.**  With an undecodable flowset in front, the outer loop spends
+one iteration on it and continues on `rest` exactly as if started there: same cache, same records,
+count advanced by the flowset length, `skipErr` appended to the non-fatal errors.  (`hgt`: the
+flowset is not an empty one at the very end of the datagram — that case is `V9.outer_skips_tail`.) -/
+theorem V9.outer_skips (addr : Bytes) (fuel : Nat) (st : V9.St) (errs : List Err) (sid : Nat) (body rest : Bytes)
+    (hsid : sid < 65536) (hlen : 4 + body.length < 65536)
+    (hrem : st.r.rem = setBytes sid body ++ rest) (hu : V9.Undecodable st.cache addr sid)
+    (hgt : body.length + rest.length > 0) :
+    V9.outer addr (fuel + 1) st errs =
+      V9.outer addr fuel { st with r := ⟨rest, st.r.cnt + (setBytes sid body).length⟩ }
+        (errs ++ (V9.skipErr sid body).toList) :=
+  Vflow.V9.outer_skips addr fuel st errs sid body rest hsid hlen hrem hu hgt
+
+/-- tail case of `V9.outer_skips`: a 4-octet flowset at the very end is not looked at at all (the
+outer loop runs while more than 4 octets remain), exactly as the empty rest would not be. -/
+theorem V9.outer_skips_tail (addr : Bytes) (fuel : Nat) (st : V9.St) (errs : List Err) (sid : Nat)
+    (hrem : st.r.rem = setBytes sid []) :
+    V9.outer addr (fuel + 1) st errs = (st, none, errs) :=
+  Vflow.V9.outer_skips_tail addr fuel st errs sid hrem
+
+/-- **Locality, NetFlow v9.**  If the outer loop, run on the octets `x` alone (state `stT`), ends
+without a fatal error in state `stT'` with error list `errs'`, then (i) at most 4 octets of `x` are
+left, and (ii) there is a `j` such that on *every* extension `x ++ s` (state `stF`, `SRel s stT stF`)
+the loop passes after `j` iterations through the state `stF'` corresponding to `stT'` (same cache, same
+records, same count, `s` appended to the remainder) with the same error list: what was decoded from
+`x` does not depend on what follows.  The hypothesis that makes this true is that the run on `x`
+*alone* is clean: the loop conditions look at the number of remaining octets (`> 4`), so a run that
+is starved on `x` alone can behave differently when more octets follow. -/
+theorem V9.outer_locality (addr : Bytes) (fuelT : Nat) (stT : V9.St) (errs : List Err)
+    (stT' : V9.St) (errs' : List Err)
+    (h : V9.outer addr fuelT stT errs = (stT', none, errs')) :
+    stT'.r.rem.length ≤ 4 ∧ ∃ j, j ≤ fuelT ∧ ∀ (s : Bytes) (stF : V9.St), V9.SRel s stT stF →
+      ∃ stF', V9.SRel s stT' stF' ∧ ∀ m, V9.outer addr (j + m) stF errs = V9.outer addr m stF' errs' :=
+  Vflow.V9.outer_ext addr fuelT stT errs stT' errs' h
+
+/-- **C09(a), NetFlow v9, whole datagram.**  `hdr` is a packet header (`hh`); `pre` is a sequence of
+flowsets that the outer loop, started after the header with cache `c`, decodes *on its own* exactly to
+its end without a fatal error (`hpre`), leaving the cache `c1` — this is how "a position between two
+flowsets" is expressed; `u = setBytes sid body` is undecodable for `c1` (the cache at that point).
+Then for every `post`, inserting `u` between `pre` and `post` changes neither the decoded records,
+nor the resulting cache, nor whether / with which fatal error `Decode` fails (at most one more
+non-fatal error is reported).
+
+Hypotheses, exactly: `hpre` (see `V9.outer_locality` for why it is about `pre` alone: a flowset of
+`pre` that reads past the end of `pre` makes the decoding of `pre` depend on what follows);
+`hfuel`: the decode of the datagram *without* `u` does not run out of model fuel (to be discharged
+by the fuel-sufficiency theorem); encodability of `u`. -/
+theorem V9.decode_skips (c : Cache) (addr hdr pre post : Bytes) (sid : Nat) (body : Bytes)
+    (h : Hdr) (k k1 : Nat) (c1 : Cache) (recs1 : List Record) (errs1 : List Err)
+    (hh : V9.readHeader ⟨hdr, 0⟩ = some (h, ⟨[], k⟩))
+    (hpre : V9.outer addr (pre.length + 1) ⟨⟨pre, k⟩, c, []⟩ [] = (⟨⟨[], k1⟩, c1, recs1⟩, none, errs1))
+    (hsid : sid < 65536) (hlen : 4 + body.length < 65536) (hu : V9.Undecodable c1 addr sid)
+    (hfuel : (V9.decode c addr (hdr ++ (pre ++ post))).1 ≠ .error .fuel) :
+    V9.recordsOf (V9.decode c addr (hdr ++ (pre ++ (setBytes sid body ++ post)))).1 =
+      V9.recordsOf (V9.decode c addr (hdr ++ (pre ++ post))).1 ∧
+    (V9.decode c addr (hdr ++ (pre ++ (setBytes sid body ++ post)))).2 =
+      (V9.decode c addr (hdr ++ (pre ++ post))).2 ∧
+    ∀ e, (V9.decode c addr (hdr ++ (pre ++ (setBytes sid body ++ post)))).1 = .error e ↔
+      (V9.decode c addr (hdr ++ (pre ++ post))).1 = .error e :=
+  Vflow.V9.decode_skips c addr hdr pre post sid body h k k1 c1 recs1 errs1 hh hpre hsid hlen hu hfuel
+
+set_option maxRecDepth 100000 in
+/-- non-vacuity of `V9.decodeSet_skips` / `V9.outer_skips`: the three kinds of undecodable flowset
+(unknown template 999, reserved id 100, id 2) in front of a decodable data flowset -/
+example :
+    V9.decodeSet exAddr 1 ⟨⟨exUnknown ++ exData2, 48⟩, exCache, [exRec1]⟩ =
+      (⟨⟨exData2, 57⟩, exCache, [exRec1]⟩, some .unknownTpl) ∧
+    V9.decodeSet exAddr 1 ⟨⟨setBytes 100 [1, 2, 3, 4, 5] ++ exData2, 48⟩, exCache, [exRec1]⟩ =
+      (⟨⟨exData2, 57⟩, exCache, [exRec1]⟩, none) ∧
+    V9.decodeSet exAddr 1 ⟨⟨setBytes 2 [1, 2, 3, 4, 5] ++ exData2, 48⟩, exCache, [exRec1]⟩ =
+      (⟨⟨exData2, 57⟩, exCache, [exRec1]⟩, some .zeroRec) ∧
+    (V9.outer exAddr 3 ⟨⟨exUnknown ++ exData2, 48⟩, exCache, [exRec1]⟩ []).1.recs = [exRec1, exRec2] :=
+  ⟨V9.decodeSet_skips exAddr 1 _ 999 [1, 2, 3, 4, 5] exData2 (by decide) (by decide) (by decide) rfl
+      (.inl ⟨by decide, by decide⟩),
+   V9.decodeSet_skips exAddr 1 _ 100 [1, 2, 3, 4, 5] exData2 (by decide) (by decide) (by decide) rfl
+      (.inr (by decide)),
+   V9.decodeSet_skips exAddr 1 _ 2 [1, 2, 3, 4, 5] exData2 (by decide) (by decide) (by decide) rfl
+      (.inr (by decide)),
+   by rw [V9.outer_skips exAddr 2 _ [] 999 [1, 2, 3, 4, 5] exData2 (by decide) (by decide) rfl
+        (.inl ⟨by decide, by decide⟩) (by decide)]; rfl⟩
+
+set_option maxRecDepth 100000 in
+/-- non-vacuity of `V9.decode_skips`: header, template flowset, data flowset | unknown-template
+flowset | data flowset: the same two records with and without the inserted flowset -/
+example :
+    V9.recordsOf (V9.decode [] exAddr (v9Hdr ++ ((v9Tpl ++ exData1) ++ (exUnknown ++ exData2)))).1 =
+      V9.recordsOf (V9.decode [] exAddr (v9Hdr ++ ((v9Tpl ++ exData1) ++ exData2))).1 ∧
+    V9.recordsOf (V9.decode [] exAddr (v9Hdr ++ ((v9Tpl ++ exData1) ++ exData2))).1 = [exRec1, exRec2] :=
+  ⟨(V9.decode_skips [] exAddr v9Hdr (v9Tpl ++ exData1) exData2 999 [1, 2, 3, 4, 5]
+      [9, 3, 1, 2, 3, 4] 20 48 exCache [exRec1] [] rfl rfl (by decide) (by decide)
+      (.inl ⟨by decide, by decide⟩)
+      (ok_ne_fuel (m := ([9, 3, 1, 2, 3, 4], [exRec1, exRec2], [])) rfl)).1, rfl⟩
+
+/-- **C09(a), IPFIX, one set.**  As `V9.decodeSet_skips`; the error slot holds `unknownTpl` for
+`sid > 255` and nothing for a reserved id (`4 ≤ sid ≤ 255`).  (Set ids 0 and 1 are not skipped by the
+IPFIX decoder: they end the decode with the fatal `invalidSet` / `emptyRec`.) -/
+theorem Ipfix.decodeSet_skips (addr : Bytes) (fuel : Nat) (st : Ipfix.St) (sid : Nat) (body rest : Bytes)
+    (hsid : sid < 65536) (hlen : 4 + body.length < 65536) (hfuel : 0 < fuel)
+    (hrem : st.r.rem = setBytes sid body ++ rest) (hu : Ipfix.Undecodable st.cache addr sid) :
+    Ipfix.decodeSet addr fuel st =
+      ({ st with r := ⟨rest, st.r.cnt + (setBytes sid body).length⟩ }, Ipfix.skipErr sid) :=
+  Vflow.Ipfix.decodeSet_skips addr fuel st sid body rest hsid hlen hfuel hrem hu
+
+theorem Ipfix.skipErr_nonfatal (sid : Nat) (e : Err) (h : Ipfix.skipErr sid = some e) :
+    e.nonfatal = true := Vflow.Ipfix.skipErr_nonfatal sid e h
+
+/-- **C09(a), IPFIX, outer loop.**  As `V9.outer_skips`. -/
+theorem Ipfix.outer_skips (addr : Bytes) (fuel : Nat) (st : Ipfix.St) (errs : List Err) (sid : Nat)
+    (body rest : Bytes) (hsid : sid < 65536) (hlen : 4 + body.length < 65536)
+    (hrem : st.r.rem = setBytes sid body ++ rest) (hu : Ipfix.Undecodable st.cache addr sid)
+    (hgt : body.length + rest.length > 0) :
+    Ipfix.outer addr (fuel + 1) st errs =
+      Ipfix.outer addr fuel { st with r := ⟨rest, st.r.cnt + (setBytes sid body).length⟩ }
+        (errs ++ (Ipfix.skipErr sid).toList) :=
+  Vflow.Ipfix.outer_skips addr fuel st errs sid body rest hsid hlen hrem hu hgt
+
+/-- tail case of `Ipfix.outer_skips` -/
+theorem Ipfix.outer_skips_tail (addr : Bytes) (fuel : Nat) (st : Ipfix.St) (errs : List Err) (sid : Nat)
+    (hrem : st.r.rem = setBytes sid []) :
+    Ipfix.outer addr (fuel + 1) st errs = (st, none, errs) :=
+  Vflow.Ipfix.outer_skips_tail addr fuel st errs sid hrem
+
+/-- **Locality, IPFIX.**  As `V9.outer_locality`. -/
+theorem Ipfix.outer_locality (addr : Bytes) (fuelT : Nat) (stT : Ipfix.St) (errs : List Err)
+    (stT' : Ipfix.St) (errs' : List Err)
+    (h : Ipfix.outer addr fuelT stT errs = (stT', none, errs')) :
+    stT'.r.rem.length ≤ 4 ∧ ∃ j, j ≤ fuelT ∧ ∀ (s : Bytes) (stF : Ipfix.St), Ipfix.SRel s stT stF →
+      ∃ stF', Ipfix.SRel s stT' stF' ∧
+        ∀ m, Ipfix.outer addr (j + m) stF errs = Ipfix.outer addr m stF' errs' :=
+  Vflow.Ipfix.outer_ext addr fuelT stT errs stT' errs' h
+
+/-- **C09(a), IPFIX, whole message.**  As `V9.decode_skips`, same hypotheses. -/
+theorem Ipfix.decode_skips (c : Cache) (addr hdr pre post : Bytes) (sid : Nat) (body : Bytes)
+    (h : Hdr) (k k1 : Nat) (c1 : Cache) (recs1 : List Record) (errs1 : List Err)
+    (hh : Ipfix.readHeader ⟨hdr, 0⟩ = some (h, ⟨[], k⟩))
+    (hpre : Ipfix.outer addr (pre.length + 1) ⟨⟨pre, k⟩, c, []⟩ [] = (⟨⟨[], k1⟩, c1, recs1⟩, none, errs1))
+    (hsid : sid < 65536) (hlen : 4 + body.length < 65536) (hu : Ipfix.Undecodable c1 addr sid)
+    (hfuel : (Ipfix.decode c addr (hdr ++ (pre ++ post))).1 ≠ .error .fuel) :
+    Ipfix.recordsOf (Ipfix.decode c addr (hdr ++ (pre ++ (setBytes sid body ++ post)))).1 =
+      Ipfix.recordsOf (Ipfix.decode c addr (hdr ++ (pre ++ post))).1 ∧
+    (Ipfix.decode c addr (hdr ++ (pre ++ (setBytes sid body ++ post)))).2 =
+      (Ipfix.decode c addr (hdr ++ (pre ++ post))).2 ∧
+    ∀ e, (Ipfix.decode c addr (hdr ++ (pre ++ (setBytes sid body ++ post)))).1 = .error e ↔
+      (Ipfix.decode c addr (hdr ++ (pre ++ post))).1 = .error e :=
+  Vflow.Ipfix.decode_skips c addr hdr pre post sid body h k k1 c1 recs1 errs1 hh hpre hsid hlen hu hfuel
+
+set_option maxRecDepth 100000 in
+/-- non-vacuity of `Ipfix.decodeSet_skips` / `Ipfix.outer_skips` -/
+example :
+    Ipfix.decodeSet exAddr 1 ⟨⟨exUnknown ++ exData2, 44⟩, exCache, [exRec1]⟩ =
+      (⟨⟨exData2, 53⟩, exCache, [exRec1]⟩, some .unknownTpl) ∧
+    Ipfix.decodeSet exAddr 1 ⟨⟨setBytes 100 [1, 2, 3, 4, 5] ++ exData2, 44⟩, exCache, [exRec1]⟩ =
+      (⟨⟨exData2, 53⟩, exCache, [exRec1]⟩, none) ∧
+    (Ipfix.outer exAddr 3 ⟨⟨exUnknown ++ exData2, 44⟩, exCache, [exRec1]⟩ []).1.recs = [exRec1, exRec2] :=
+  ⟨Ipfix.decodeSet_skips exAddr 1 _ 999 [1, 2, 3, 4, 5] exData2 (by decide) (by decide) (by decide) rfl
+      (.inl ⟨by decide, by decide⟩),
+   Ipfix.decodeSet_skips exAddr 1 _ 100 [1, 2, 3, 4, 5] exData2 (by decide) (by decide) (by decide) rfl
+      (.inr (by decide)),
+   by rw [Ipfix.outer_skips exAddr 2 _ [] 999 [1, 2, 3, 4, 5] exData2 (by decide) (by decide) rfl
+        (.inl ⟨by decide, by decide⟩) (by decide)]; rfl⟩
+
+set_option maxRecDepth 100000 in
+/-- non-vacuity of `Ipfix.decode_skips` -/
+example :
+    Ipfix.recordsOf (Ipfix.decode [] exAddr (ipfixHdr ++ ((ipfixTpl ++ exData1) ++ (exUnknown ++ exData2)))).1 =
+      Ipfix.recordsOf (Ipfix.decode [] exAddr (ipfixHdr ++ ((ipfixTpl ++ exData1) ++ exData2))).1 ∧
+    Ipfix.recordsOf (Ipfix.decode [] exAddr (ipfixHdr ++ ((ipfixTpl ++ exData1) ++ exData2))).1 =
+      [exRec1, exRec2] :=
+  ⟨(Ipfix.decode_skips [] exAddr ipfixHdr (ipfixTpl ++ exData1) exData2 999 [1, 2, 3, 4, 5]
+      [10, 56, 1, 2, 3] 16 44 exCache [exRec1] [] rfl rfl (by decide) (by decide)
+      (.inl ⟨by decide, by decide⟩)
+      (ok_ne_fuel (m := ([10, 56, 1, 2, 3], [exRec1, exRec2], [])) rfl)).1, rfl⟩
 
 end Vflow.C09
